@@ -3,6 +3,9 @@
 #ifndef C01_K
 #define C01_K 2
 #endif
+#ifndef C01_FILL
+#define C01_FILL 12
+#endif
 namespace {
    struct World {
       impl::Lexicon lx;
@@ -13,7 +16,21 @@ namespace {
       const ipr::Sum* S[2];
       const ipr::Linkage* L[3];      // L[0] = C++ (natural)
       const ipr::Calling_convention* C[2];   // C[0] = natural (empty)
-      World() {
+      // fillers: operand nodes that only the concrete bulk requests of h_separated use; `pre` of them are created before the
+      // pools and the others after, so that the pool nodes sit in the middle of the address order the tables are keyed on
+      enum { NF = C01_FILL, NK = 16 };
+      const ipr::Type* F[NF ? NF : 1]; const ipr::Expr* FE[NF ? NF : 1]; const ipr::Linkage* FL[NF ? NF : 1];
+      const void* fnode[NF ? NF : 1][NK];
+      void make_fillers(int from, int to) {
+         static const char8_t* const spell[] = { u8"a", u8"b", u8"c", u8"d", u8"e", u8"f", u8"g", u8"h", u8"i", u8"j", u8"k", u8"l", u8"m", u8"n", u8"o", u8"p", u8"q", u8"r", u8"s", u8"t", u8"u", u8"v", u8"w", u8"x",
+            u8"aa", u8"ab", u8"ac", u8"ad", u8"ae", u8"af", u8"ag", u8"ah", u8"ai", u8"aj", u8"ak", u8"al", u8"am", u8"an", u8"ao", u8"ap", u8"aq", u8"ar", u8"as", u8"at", u8"au", u8"av", u8"aw", u8"ax" };
+         for (int i = from; i < to && i < NF; ++i) {
+            F[i] = (i % 3 == 0) ? static_cast<const ipr::Type*>(lx.make_class(*unit.global_region())) : (i % 3 == 1) ? static_cast<const ipr::Type*>(lx.make_union(*unit.global_region())) : static_cast<const ipr::Type*>(lx.make_enum(*unit.global_region(), ipr::Enum::Kind::Scoped));
+            FE[i] = lx.make_literal(lx.int_type(), spell[i % 48]); FL[i] = &lx.get_linkage(spell[i % 48]);
+         }
+      }
+      explicit World(int pre = 0) {
+         make_fillers(0, pre);
          T[0] = &lx.int_type(); T[1] = lx.make_class(*unit.global_region()); T[2] = &lx.get_pointer(lx.bool_type());
          vp_sort_by_address(T, 3);
          E[0] = &lx.false_value(); E[1] = &lx.true_value(); E[2] = lx.make_literal(lx.int_type(), u8"3");
@@ -23,24 +40,47 @@ namespace {
          S[0] = &lx.get_sum(w1); S[1] = &lx.get_sum(w2); vp_sort_by_address(S, 2);
          L[0] = &lx.cxx_linkage(); L[1] = &lx.c_linkage(); L[2] = &lx.get_linkage(u8"Zed");
          C[0] = &lx.get_calling_convention(u8""); C[1] = &lx.get_calling_convention(u8"fastcall");
+         make_fillers(pre, NF);
+      }
+      // one concrete request per table for filler i (deterministic: nothing symbolic, so it costs instructions only)
+      void bulk_one(int i, const void** out) {
+         auto& f = *F[i]; int k = 0;
+         out[k++] = &lx.get_pointer(f); out[k++] = &lx.get_reference(f); out[k++] = &lx.get_rvalue_reference(f);
+         out[k++] = &lx.get_array(f, *E[i % 3]); out[k++] = &lx.get_array(*T[i % 3], *FE[i]);
+         out[k++] = &lx.get_qualified(ipr::Qualifiers(1 + (i * 3) % 7), f);
+         out[k++] = &lx.get_function(*P[i % 2], f); out[k++] = &lx.get_function(*P[i % 2], f, *FE[i]);
+         out[k++] = &lx.get_function(*P[i % 2], f, *E[i % 3], lx.get_transfer(*FL[i], *C[i % 2]));
+         impl::Warehouse<ipr::Type> wh; wh.push_back(f); if (i % 2) wh.push_back(*T[i % 3]);
+         out[k++] = &lx.get_product(wh); out[k++] = &lx.get_sum(wh);
+         out[k++] = &lx.get_forall(*P[i % 2], f); out[k++] = &lx.get_ptr_to_member(f, *T[i % 3]);
+         out[k++] = &lx.get_as_type(*FE[i]); out[k++] = &lx.get_as_type(*FE[i], lx.get_transfer(*FL[i], *C[1]));
+         out[k++] = &lx.get_transfer(*FL[i], *C[1]);
+      }
+      void bulk(int from, int to) { for (int i = from; i < to && i < NF; ++i) bulk_one(i, fnode[i]); }
+      bool bulk_unchanged(int from, int to) {
+         bool ok = true; const void* again[NK];
+         for (int i = from; i < to && i < NF; ++i) { bulk_one(i, again); for (int k = 0; k < NK; ++k) ok = ok && again[k] == fnode[i][k]; }
+         return ok;
       }
    };
    enum Ctor { KPointer, KReference, KRvalue_reference, KArray, KQualified, KFunction, KProduct, KSum, KForall, KPtr_to_member, KTor, KAs_type, KTransfer, NCTOR };
    struct Req { unsigned c; unsigned a[4]; const void* node; };
 
    // Issue one symbolically chosen request to constructor c.  a[] receives the canonical arguments.
-   const void* request(World& w, Req& r, unsigned c, bool lite = false) {
+   // lvl 0: full pools and request forms; 1 (lite): fewer transfer choices; 2 (tiny): two candidates per operand, long form only
+   const void* request(World& w, Req& r, unsigned c, int lvl = 0) {
       auto& lx = w.lx; r.c = c; r.a[0] = r.a[1] = r.a[2] = r.a[3] = 0;
+      const bool lite = lvl >= 1, tiny = lvl >= 2; const unsigned nt = tiny ? 2 : 3;
       switch (c) {
       case KPointer: r.a[0] = vp_pick(3); return &lx.get_pointer(*w.T[r.a[0]]);
       case KReference: r.a[0] = vp_pick(3); return &lx.get_reference(*w.T[r.a[0]]);
       case KRvalue_reference: r.a[0] = vp_pick(3); return &lx.get_rvalue_reference(*w.T[r.a[0]]);
-      case KArray: r.a[0] = vp_pick(3); r.a[1] = vp_pick(3); return &lx.get_array(*w.T[r.a[0]], *w.E[r.a[1]]);
-      case KQualified: r.a[0] = 1 + vp_pick(3); r.a[1] = vp_pick(3); return &lx.get_qualified(ipr::Qualifiers(r.a[0]), *w.T[r.a[1]]);
+      case KArray: r.a[0] = vp_pick(nt); r.a[1] = vp_pick(3); return &lx.get_array(*w.T[r.a[0]], *w.E[r.a[1]]);
+      case KQualified: r.a[0] = 1 + vp_pick(7); r.a[1] = vp_pick(nt); return &lx.get_qualified(ipr::Qualifiers(r.a[0]), *w.T[r.a[1]]);      // every non-empty subset of {const, volatile, restrict}
       case KFunction: {
          r.a[0] = vp_pick(2); r.a[1] = vp_pick(lite ? 2 : 3); r.a[2] = vp_pick(2); unsigned l = vp_pick(2), cc = lite ? 0 : vp_pick(2); r.a[3] = l * 2 + cc;
          auto& xf = lx.get_transfer(*w.L[l], *w.C[cc]);
-         unsigned form = vp_pick(2);
+         unsigned form = tiny ? 0 : vp_pick(2);
          // a request that omits the default non-throwing specification / the natural transfer is the same request as one that spells it out
          if (r.a[2] == 0 && r.a[3] == 0 && form) return &lx.get_function(*w.P[r.a[0]], *w.T[r.a[1]]);
          if (r.a[2] == 0 && form) return &lx.get_function(*w.P[r.a[0]], *w.T[r.a[1]], xf);
@@ -54,14 +94,34 @@ namespace {
       case KPtr_to_member: r.a[0] = vp_pick(3); r.a[1] = vp_pick(3); return &lx.get_ptr_to_member(*w.T[r.a[0]], *w.T[r.a[1]]);
       case KTor: r.a[0] = vp_pick(2); r.a[1] = vp_pick(2); return &lx.get_tor(*w.P[r.a[0]], *w.S[r.a[1]]);
       case KAs_type: {
-         r.a[0] = vp_pick(lite ? 2 : 3); unsigned l = vp_pick(2), cc = lite ? 0 : vp_pick(2); r.a[1] = l * 2 + cc; unsigned form = vp_pick(2);
+         r.a[0] = vp_pick(lite ? 2 : 3); unsigned l = vp_pick(tiny ? 3 : 2), cc = lite && !tiny ? 0 : vp_pick(2); r.a[1] = l * 2 + cc; unsigned form = tiny ? 0 : vp_pick(2);
          if (r.a[1] == 0 && form) return &lx.get_as_type(*w.E[r.a[0]]);
          return &lx.get_as_type(*w.E[r.a[0]], lx.get_transfer(*w.L[l], *w.C[cc])); }
       case KTransfer: {
-         r.a[0] = vp_pick(3); r.a[1] = vp_pick(2); unsigned form = vp_pick(2);
+         r.a[0] = vp_pick(3); r.a[1] = vp_pick(2); unsigned form = tiny ? 0 : vp_pick(2);
          if (r.a[1] == 0 && form) return &lx.get_transfer_from_linkage(*w.L[r.a[0]]);
          if (r.a[0] == 0 && form) return &lx.get_transfer_from_convention(*w.C[r.a[1]]);
          return &lx.get_transfer(*w.L[r.a[0]], *w.C[r.a[1]]); }
+      }
+      return nullptr;
+   }
+   // the same request again (nothing symbolic: arguments taken from r)
+   const void* again(World& w, const Req& r) {
+      auto& lx = w.lx;
+      switch (r.c) {
+      case KPointer: return &lx.get_pointer(*w.T[r.a[0]]);
+      case KReference: return &lx.get_reference(*w.T[r.a[0]]);
+      case KRvalue_reference: return &lx.get_rvalue_reference(*w.T[r.a[0]]);
+      case KArray: return &lx.get_array(*w.T[r.a[0]], *w.E[r.a[1]]);
+      case KQualified: return &lx.get_qualified(ipr::Qualifiers(r.a[0]), *w.T[r.a[1]]);
+      case KFunction: return &lx.get_function(*w.P[r.a[0]], *w.T[r.a[1]], *w.E[r.a[2]], lx.get_transfer(*w.L[r.a[3] / 2], *w.C[r.a[3] % 2]));
+      case KProduct: case KSum: { impl::Warehouse<ipr::Type> wh; for (unsigned i = 0; i < r.a[0]; ++i) wh.push_back(*w.T[r.a[1 + i]]);
+         return r.c == KProduct ? static_cast<const void*>(&lx.get_product(wh)) : static_cast<const void*>(&lx.get_sum(wh)); }
+      case KForall: return &lx.get_forall(*w.P[r.a[0]], *w.T[r.a[1]]);
+      case KPtr_to_member: return &lx.get_ptr_to_member(*w.T[r.a[0]], *w.T[r.a[1]]);
+      case KTor: return &lx.get_tor(*w.P[r.a[0]], *w.S[r.a[1]]);
+      case KAs_type: return &lx.get_as_type(*w.E[r.a[0]], lx.get_transfer(*w.L[r.a[1] / 2], *w.C[r.a[1] % 2]));
+      case KTransfer: return &lx.get_transfer(*w.L[r.a[0]], *w.C[r.a[1]]);
       }
       return nullptr;
    }
@@ -87,9 +147,69 @@ extern "C" void h_same_table(void) {
 // (2) histories of C01_K+1 arbitrary requests (any constructor at every step): "no matter what was built in between"
 extern "C" void h_history(void) {
    World* w = new World; Req r[C01_K + 1];
-   for (int i = 0; i <= C01_K; ++i) { unsigned c = vp_pick(NCTOR - 1); r[i].node = request(*w, r[i], c, true); }     // Transfer excluded here (see h_same_table)
+   for (int i = 0; i <= C01_K; ++i) { unsigned c = vp_pick(NCTOR - 1); r[i].node = request(*w, r[i], c, 1); }     // Transfer excluded here (see h_same_table)
    for (int i = 0; i <= C01_K; ++i) for (int j = i + 1; j <= C01_K; ++j)
       vp_assert((r[i].node == r[j].node) == same_args(r[i], r[j]), 2);
+   vp_done();
+}
+// (2a) three requests to one table, then each of them again: whatever shape the table has taken (the third insertion rotates a
+// line of three), every key is still found.  Covers the comparators that cannot be named from outside (function / as-type with
+// transfer) and, because the three keys are arbitrary, every insertion order.
+extern "C" void h_table3(void) {
+   World* w = new World; Req r[3];
+   unsigned c = vp_pick(NCTOR - 1);
+   for (int i = 0; i < 3; ++i) r[i].node = request(*w, r[i], c, 2);
+   for (int i = 0; i < 3; ++i) for (int j = i + 1; j < 3; ++j) vp_assert((r[i].node == r[j].node) == same_args(r[i], r[j]), 8);
+   for (int i = 0; i < 3; ++i) vp_assert(again(*w, r[i]) == r[i].node, 9);
+   vp_done();
+}
+// (2c) the key comparators are total orders that agree with argument identity: for three arbitrary keys of one table,
+// cmp(node(ki), kj) is zero exactly for equal arguments, antisymmetric and transitive.  Together with C08 (the tree is right for
+// every total order) this is what extends unification to histories of any length.  The comparators are called directly on real nodes.
+namespace {
+   inline int sgn(int x) { return x < 0 ? -1 : x > 0 ? 1 : 0; }
+   template<class N, class I> const N& as_impl(const I& x) { return static_cast<const N&>(x); }
+}
+extern "C" void h_order_lemmas(void) {
+   World* w = new World; auto& lx = w->lx; Req r[3]; int c[3][3];
+   unsigned k = vp_pick(NCTOR - 2);        // the nameable comparators: every table but function/as-type with transfer (see h_table3) and transfers (values)
+   for (int i = 0; i < 3; ++i) r[i].node = request(*w, r[i], k, 2);
+   for (int i = 0; i < 3; ++i) for (int j = 0; j < 3; ++j) {
+      const Req& x = r[i]; const Req& y = r[j];
+      switch (k) {
+      case KPointer: c[i][j] = impl::unified_type_compare()(*static_cast<const ipr::Pointer*>(x.node), *w->T[y.a[0]]); break;
+      case KReference: c[i][j] = impl::unified_type_compare()(*static_cast<const ipr::Reference*>(x.node), *w->T[y.a[0]]); break;
+      case KRvalue_reference: c[i][j] = impl::unified_type_compare()(*static_cast<const ipr::Rvalue_reference*>(x.node), *w->T[y.a[0]]); break;
+      case KArray: c[i][j] = impl::binary_compare()(*static_cast<const impl::Array*>(x.node), impl::Array::Rep{ *w->T[y.a[0]], *w->E[y.a[1]] }); break;
+      case KQualified: c[i][j] = impl::binary_compare()(*static_cast<const impl::Qualified*>(x.node), impl::Qualified::Rep{ ipr::Qualifiers(y.a[0]), *w->T[y.a[1]] }); break;
+      case KFunction: c[i][j] = (y.a[3] == 0 && x.a[3] == 0) ? impl::ternary_compare()(*static_cast<const impl::Function*>(x.node), impl::Function::Rep{ *w->P[y.a[0]], *w->T[y.a[1]], *w->E[y.a[2]] }) : 2; break;
+      case KProduct: case KSum: { impl::ref_sequence<ipr::Type> seq; for (unsigned e = 0; e < y.a[0]; ++e) seq.push_back(w->T[y.a[1 + e]]);
+         c[i][j] = k == KProduct ? impl::unary_lexicographic_compare()(*static_cast<const impl::Product*>(x.node), seq) : impl::unary_lexicographic_compare()(*static_cast<const impl::Sum*>(x.node), seq); break; }
+      case KForall: c[i][j] = impl::binary_compare()(*static_cast<const impl::Forall*>(x.node), impl::Forall::Rep{ *w->P[y.a[0]], *w->T[y.a[1]] }); break;
+      case KPtr_to_member: c[i][j] = impl::binary_compare()(*static_cast<const impl::Ptr_to_member*>(x.node), impl::Ptr_to_member::Rep{ *w->T[y.a[0]], *w->T[y.a[1]] }); break;
+      case KTor: c[i][j] = impl::binary_compare()(*static_cast<const impl::Tor*>(x.node), impl::Tor::Rep{ *w->P[y.a[0]], *w->S[y.a[1]] }); break;
+      default: c[i][j] = 2;
+      }
+   }
+   for (int i = 0; i < 3; ++i) for (int j = 0; j < 3; ++j) if (c[i][j] != 2 && c[j][i] != 2) {
+      vp_assert((c[i][j] == 0) == same_args(r[i], r[j]), 30);
+      vp_assert(sgn(c[i][j]) == -sgn(c[j][i]), 31);
+   }
+   if (c[0][1] != 2 && c[1][2] != 2 && c[0][2] != 2 && c[0][1] < 0 && c[1][2] < 0) vp_assert(c[0][2] < 0, 32);
+   vp_done();
+}
+// (2b) requests separated by bulk insertions that rebalance every lookup tree: C01_FILL/2 concrete requests to every table,
+// request A, the other half of the bulk, request B, request A again.  The pool operands sit in the middle of the address order.
+extern "C" void h_separated(void) {
+   World* w = new World(World::NF / 2); Req r[3];
+   unsigned c = vp_pick(NCTOR - 1);
+   w->bulk(0, World::NF / 2);
+   r[0].node = request(*w, r[0], c, 1);
+   w->bulk(World::NF / 2, World::NF);
+   r[1].node = request(*w, r[1], c, 1);
+   vp_assert((r[0].node == r[1].node) == same_args(r[0], r[1]), 5);
+   vp_assert(w->bulk_unchanged(0, World::NF), 6);                                  // every earlier request still yields its node
+   for (int i = 0; i < World::NF; ++i) for (int k = 0; k < World::NK; ++k) vp_assert(w->fnode[i][k] != r[0].node && w->fnode[i][k] != r[1].node, 7);
    vp_done();
 }
 // (3) normal forms with symbolic linkage / convention spellings
